@@ -86,6 +86,7 @@ Conf ==
       [] e.name = "Obs" -> UNCHANGED svars
       [] e.name = "Genesis" -> UNCHANGED svars
       [] e.name = "PrepZeroHeight" -> e.ok /\ PrepZeroHeight
+      [] e.name = "Restart" -> e.ok /\ stopped /\ Restart(now')
       [] e.name = "Define" ->
             IF e.ok THEN Define(e.signer, e.svc, e.dg) ELSE Rej(CanDefine(e.signer, e.svc))
       [] e.name = "Bind" ->
@@ -310,8 +311,10 @@ TraceNext ==
     /\ cb' = [i \in DOMAIN Trace[l + 1].cb |-> CbOf(Trace[l + 1].cb[i])]
     /\ ev' = Trace[l + 1].ev
     /\ hist' = IF ev'.name = "reset" THEN HistInit
-               ELSE IF ev'.name = "restore" THEN HistUnknown(ctx') ELSE HistNext
-    /\ stopped' = IF ev'.name \in {"reset", "restore"} THEN FALSE ELSE (stopped \/ ev'.name = "PrepZeroHeight")
+               ELSE IF ev'.name = "restore" THEN HistUnknown(ctx')
+               ELSE IF ev'.name = "Restart" THEN HistRestart(ctx') ELSE HistNext
+    /\ stopped' = IF ev'.name \in {"reset", "restore"} \/ (ev'.name = "Restart" /\ ev'.ok) THEN FALSE
+                  ELSE (stopped \/ ev'.name = "PrepZeroHeight")
     /\ bad' = {p \in Check : ~Holds(p)}
     /\ conf' = Conf
     /\ (bad' # {} => PrintT(<<"VIOL", l + 1, bad'>>))
